@@ -1,7 +1,7 @@
 SPECIFICATION Spec
 CONSTANTS
-  Obj = {1, 2, 3, 4}
-  MaxSteps = 7
+  Obj = {1, 2, 3}
+  MaxSteps = 5
   TlsRecurse = TRUE
   SweepCoop = TRUE
   Emit = FALSE
@@ -9,8 +9,8 @@ CONSTANTS
   Spawners = FALSE
   NestedSweep = FALSE
   TeardownLoop = TRUE
-  Registers = FALSE
-  FlushRegs = TRUE
+  Registers = TRUE
+  FlushRegs = FALSE
   StopOps = FALSE
 VIEW view
 ACTION_CONSTRAINT EmitEdge
